@@ -17,6 +17,12 @@ def check(ctx):
             ctx.violation("caller-stranded", "SendActiveMessage(k=%s) had not returned 4 s after its time-out" % e.get("k"), {"kind": "live", "event": e})
     conns = lc.split_conns(events)
     lc.trace_conn(ctx, conns, "c09")
+    # the same with WithHasSubcontract(false): every part of a transfer is handed out as a message of its own and stays what it was
+    # when the transfer completes
+    tr2 = os.path.join(ctx.scratch, "c09_live_nofilter.ndjson")
+    rc, err, ev2 = lc.run_live(ctx, ["live-c09", 6 if thorough else 3, 60 if thorough else 30, tr2, "nofilter"], timeout=1800)
+    lc.crash_check(ctx, rc, err, "live-c09 nofilter")
+    lc.trace_conn(ctx, lc.split_conns(ev2), "c09_nofilter")
     nre = sum(1 for e in events if e["ev"] == "recheck")
     if nre == 0:
         raise vlib.ToolFailure("no recheck events recorded")
